@@ -26,7 +26,7 @@ def Mem_Set : List String := ["mu.Lock", "defer mu.Unlock", "@m.data", "@m.data"
 def Mem_SetExpiration : List String := ["mu.Lock", "defer mu.Unlock", "@m.data", "{ret", "}", "IsZero", "@item.Expiration", "After", "@item.Expiration", "{ret", "delete", "@m.data", "}", "@item.Expiration", "expirationFor"]
 def Mem_SetHash : List String := ["mu.Lock", "defer mu.Unlock", "@m.data", "@m.data", "@m.data", "Add", "@m.data", "IsZero", "@item.Expiration", "After", "@item.Expiration", "@item.Value", "@item.Expiration", "Add", "@hash", "@item.Value", "{ret", "@hash", "}", "@item.Value", "@hash", "@item.Value", "@hash"]
 def Mem_SetList : List String := ["m.Set"]
-def Mem_SetNX : List String := ["mu.RLock", "@m.data", "IsZero", "@item.Expiration", "After", "@item.Expiration", "mu.RUnlock", "{ret", "}", "mu.Lock", "defer mu.Unlock", "delete", "@m.data", "@m.data", "{ret", "}", "Add", "@m.data"]
+def Mem_SetNX : List String := ["mu.Lock", "defer mu.Unlock", "@m.data", "IsZero", "@item.Expiration", "After", "@item.Expiration", "{ret", "}", "delete", "@m.data", "Add", "@m.data"]
 def Mem_expirationFor : List String := ["{ret", "}", "Add"]
 def Repo_Cleanup_Acquire : List String := ["SetNX", "Get", "Delete", "Delete", "Delete", "Delete", "Delete", "CompareAndSwap", "Delete", "Delete"]
 def Repo_Cleanup_Complete : List String := ["Delete", "Get", "Delete", "CompareAndSwap"]
